@@ -1,5 +1,6 @@
 import WM.Proto
 import WM.Model.FS
+import WM.Model.FSCodec
 /-!
 Protocol handler of family `c02` (commit protocol, recovery, clean-up, name patterns).
 
@@ -9,6 +10,10 @@ directory / TOCs / events refer to names by index:
   toc    ::= ( gen schema ( (sidIdx (fileIdx*) (deleted*))* ) )
   fs     ::= ( (nameIdx c|t|w len toc|-)* )
   event  ::= (c n) | (w n k) | (t n toc) | (x n) | (r a b) | (d n) | (o)
+
+  c02 segfiles ix segid 0|1 (column*) 0|1      -> (name*)   files of a W3 segment, from the codec model
+  c02 listfiles sid (name*)                    -> (name*)   Segment.list_files
+  c02 delmatched ix tab trace                  -> 1 | 0     hypothesis of C02.toc_tmp_leaks on a real trace
 -/
 namespace WM.Drv.C02
 open WM.Proto WM.FS
@@ -100,6 +105,25 @@ def handle : List SExp → String
   | [.atom "tocname", ix, g] =>
     match name? ix, g.nat? with
     | some i, some k => showName (tocName i k)
+    | _, _ => "bad-op"
+  | [.atom "segfiles", ix, sg, c, cols, v] =>
+    match name? ix, name? sg, c.nat?, cols.listOf? name?, v.nat? with
+    | some i, some g, some cb, some cl, some vb =>
+      showList showName (segFiles (segmentId i g) ⟨cb != 0, cl, vb != 0⟩)
+    | _, _, _, _, _ => "bad-op"
+  | [.atom "listfiles", sid, ns] =>
+    match name? sid, ns.listOf? name? with
+    | some sd, some l => showList showName (listFiles sd l)
+    | _, _ => "bad-op"
+  | [.atom "delmatched", ix, tb, tr] =>
+    match name? ix, tab? tb with
+    | some i, some tab =>
+      match trace? tab tr with
+      | some es => showBool (es.all fun e => match e with
+          | .delete m => (tocGen i m).isSome || (segOf i m).isSome ||
+              (stripPrefix (i ++ ['.', 't', 'm', 'p']) m).isSome
+          | _ => true)
+      | none => "bad-op"
     | _, _ => "bad-op"
   | [.atom "latest", ix, ns] =>
     match name? ix, ns.listOf? name? with
